@@ -23,7 +23,13 @@ RULE = ('programs of the gen_scripts grammar: exhaustive small statements (Y = t
         'sub-streams with verbatim fragments, named periods and LHS offsets, regression cases of two repaired defects '
         '(constant sub-expressions that warn/raise are accepted and evaluated; variable/called-function clashes are '
         'rejected with ParserError), and a stream of still-open known-defect inputs. '
-        'Each program x one random finite data vector x every feasible t. distinct = distinct (script text); '
+        'Each program x one finite data vector (regimes: moderate, underflow range, near-overflow, signed zeros, '
+        'subnormals, huge/small mixes, integers) x every feasible t, on ONE instance whose provenance (fresh, copy, '
+        'reindexed) and per-series assignment history (list, tuple, scalar, ndarray, one ndarray for several series, '
+        'another series own array, views, constructor keywords, replace_values, element-wise) vary; the pass is run '
+        'by _evaluate and, when free of floating-point faults, also through solve_t for one iteration; the period and '
+        'every scalar keyword are passed in varying forms (int / np.int64 / np.int32 / np.intp / np.int16, negative '
+        'spelling, np.float64 / np.float32 tolerance, np.bool_ flag). distinct = distinct (script text); '
         'non-trivial = accepted program whose evaluation wrote a cell')
 TRUSTED = ['CPython: the statement text means the assignment its `ast` shows (T compares the trees on every program)',
            'NumPy float64 scalar arithmetic is deterministic (the reference interpreter uses the same operations in '
@@ -32,6 +38,10 @@ TRUSTED = ['CPython: the statement text means the assignment its `ast` shows (T 
            'text -> token tie (regex scanner, layouts) is established by the text-level model (C13/C14), here only '
            'checked through T on every generated text']
 ASSUMPTIONS = ['feasible period: LAGS <= t < len(span) - LEADS', 'series hold finite floats',
+               'the period is given as a Python int or a SIGNED NumPy integer scalar (np.int64/int32/intp/int16), in the '
+               'non-negative or the negative spelling; counts/offset/tolerance/flags as Python or NumPy scalars. bool is '
+               'not a period (as an index `True` broadcasts over the series on HEAD) and unsigned NumPy integers are not '
+               '(t - k wraps in unsigned arithmetic): both are left out',
                'no variable shares its name with a function called in the same statement (such scripts must be rejected '
                'with ParserError; checked on every run); no whitespace between a name and its `[`; names do not start '
                'with an underscore (other than `_`); numeric literals have no exponent (the last three guards are '
@@ -387,7 +397,10 @@ def observe_(case, rep, want_impl=True):
         w_ref, r_ref, exc_ref = ec.run_reference(prog, ref, t, locate=loc_term, env={'self': m, 'len': len})
         faults = list(ec.run_reference.faults)
         del log[:]
-        exc = evaluate_with(m, t, EXTRA_FUNCS)
+        ar = random.Random(f"{case['data_seed']}:args:{t}") if case.get('vary', True) else None
+        tlabel, t_eval = ec.period_arg(ar, t, n) if ar else ('int', t)
+        rep.dist['t-form:' + tlabel] += 1
+        exc = evaluate_with(m, t_eval, EXTRA_FUNCS)
         ec.remove_recorders(m)
         got = {nm: np.array(m.__dict__['_' + nm], dtype=float) for nm in data0}
         reads = [(nm, ec.norm_pos(k, n)) for op, nm, k in log if op == 'r']
@@ -424,14 +437,19 @@ def observe_(case, rep, want_impl=True):
             try:
                 with warnings.catch_warnings():
                     warnings.simplefilter('ignore')
-                    m.solve_t(t, max_iter=1, failures='ignore')
+                    slabel, t_solve = ec.period_arg(ar, t, n) if ar else ('int', t)
+                    klabels, kw = ec.solve_kwargs(ar) if ar else ([], {'max_iter': 1, 'failures': 'ignore'})
+                    rep.dist['solve_t:t-form:' + slabel] += 1
+                    for kl in klabels:
+                        rep.dist['solve_t:' + kl] += 1
+                    m.solve_t(t_solve, **kw)
                 exc_s = None
             except Exception as e:  # noqa: BLE001
                 exc_s = f'{type(e).__name__}: {str(e)[:120]}' + (f' <- {type(e.__cause__).__name__}: {e.__cause__}' if e.__cause__ else '')
             rep.dist['solve_t-route:checked'] += 1
             if exc_s is not None:
                 violate('solve_t-rejects-clean-pass', f't={t}: the pass has no floating-point fault and finite results '
-                        f'({plan["regime"]} data) but solve_t(t, max_iter=1) raised {exc_s}')
+                        f'({plan["regime"]} data) but solve_t({t_solve!r} [{slabel}], {kw}) raised {exc_s}')
             else:
                 d3 = ec.same_arrays(ref, {nm: np.array(m.__dict__['_' + nm], dtype=float) for nm in data0})
                 if d3:
